@@ -1789,4 +1789,78 @@ theorem paired_lookups (s : MemStore) (h : PInv s) (n : Nat) (g : Group) :
     simp only [findGroupNostr, h.hb]
     exact (hi g.nid).trans ((find_nid_iff hg g.nid g).mpr ⟨hm, rfl⟩)
 
+/-! ### what a rollback can never touch, at any fill level -/
+
+/-- messages, dedup records, welcomes, processed welcomes (contents and recency queues) and the capacities -/
+structure RFrame (a b : MemStore) : Prop where
+  msgs : a.u.msgs = b.u.msgs
+  pms : a.u.pms = b.u.pms
+  welcomes : a.u.welcomes = b.u.welcomes
+  pws : a.u.pws = b.u.pws
+  byId : a.byId = b.byId
+  q1 : a.qMsgGroups = b.qMsgGroups
+  q2 : a.qPms = b.qPms
+  q3 : a.qWelcomes = b.qWelcomes
+  q4 : a.qPws = b.qPws
+  q5 : a.qById = b.qById
+  cap : a.cap = b.cap
+  mcap : a.msgCap = b.msgCap
+
+theorem rframe_refl (a : MemStore) : RFrame a a := ⟨rfl, rfl, rfl, rfl, rfl, rfl, rfl, rfl, rfl, rfl, rfl, rfl⟩
+theorem rframe_trans {a b c : MemStore} (h1 : RFrame a b) (h2 : RFrame b c) : RFrame a c :=
+  ⟨h1.msgs.trans h2.msgs, h1.pms.trans h2.pms, h1.welcomes.trans h2.welcomes, h1.pws.trans h2.pws, h1.byId.trans h2.byId,
+   h1.q1.trans h2.q1, h1.q2.trans h2.q2, h1.q3.trans h2.q3, h1.q4.trans h2.q4, h1.q5.trans h2.q5, h1.cap.trans h2.cap,
+   h1.mcap.trans h2.mcap⟩
+
+theorem rframe_putGroups (s : MemStore) (k : Nat) : RFrame (putGroups s k) s := by
+  unfold putGroups
+  generalize (qTouch s.cap k s.qGroups) = r
+  obtain ⟨r1, r2⟩ := r
+  cases r2 <;> exact ⟨rfl, rfl, rfl, rfl, rfl, rfl, rfl, rfl, rfl, rfl, rfl, rfl⟩
+theorem rframe_putByNid (s : MemStore) (k : Nat) : RFrame (putByNid s k) s := by
+  unfold putByNid
+  generalize (qTouch s.cap k s.qByNid) = r
+  obtain ⟨r1, r2⟩ := r
+  cases r2 <;> exact ⟨rfl, rfl, rfl, rfl, rfl, rfl, rfl, rfl, rfl, rfl, rfl, rfl⟩
+theorem rframe_putRelays (s : MemStore) (k : Nat) : RFrame (putRelays s k) s := by
+  unfold putRelays
+  generalize (qTouch s.cap k s.qRelays) = r
+  obtain ⟨r1, r2⟩ := r
+  cases r2 <;> exact ⟨rfl, rfl, rfl, rfl, rfl, rfl, rfl, rfl, rfl, rfl, rfl, rfl⟩
+theorem rframe_putSecrets (s : MemStore) (k : Nat × Nat) : RFrame (putSecrets s k) s := by
+  unfold putSecrets
+  generalize (qTouch s.cap k s.qSecrets) = r
+  obtain ⟨r1, r2⟩ := r
+  cases r2 <;> exact ⟨rfl, rfl, rfl, rfl, rfl, rfl, rfl, rfl, rfl, rfl, rfl, rfl⟩
+
+theorem rframe_foldSecrets (gid : Nat) (es : List Nat) : ∀ a : MemStore,
+    RFrame (es.foldl (fun acc e => putSecrets acc (gid, e)) a) a := by
+  induction es with
+  | nil => intro a; exact rframe_refl a
+  | cons e t ih => intro a; exact rframe_trans (ih _) (rframe_putSecrets a (gid, e))
+
+theorem rframe_snapRollback (s : MemStore) (hb : s.u.backend = .mem) (gid name : Nat) (ch : List Nat) (s' : MemStore)
+    (h : snapRollback s gid name ch = some s') : RFrame s' s := by
+  unfold snapRollback at h
+  cases hf : findSnap s.u gid name with
+  | none => rw [hf] at h; cases h
+  | some p =>
+    rw [hf] at h
+    simp only [] at h
+    rw [restore_mem s.u p hb] at h
+    simp only [] at h
+    have h' := (Option.some.inj h).symm
+    rw [h']
+    refine rframe_trans (rframe_foldSecrets _ _ _) ?_
+    have h2 : ∀ a : MemStore, RFrame a s → RFrame (if p.relays.isEmpty then a else putRelays a p.gid) s := by
+      intro a ha
+      split
+      · exact ha
+      · exact rframe_trans (rframe_putRelays _ _) ha
+    apply h2
+    cases p.group with
+    | none => exact ⟨rfl, rfl, rfl, rfl, rfl, rfl, rfl, rfl, rfl, rfl, rfl, rfl⟩
+    | some g =>
+      exact rframe_trans (rframe_putByNid _ _) (rframe_trans (rframe_putGroups _ _) ⟨rfl, rfl, rfl, rfl, rfl, rfl, rfl, rfl, rfl, rfl, rfl, rfl⟩)
+
 end MdkVerif.MemLru
